@@ -140,6 +140,10 @@ func GenPeerWorld(r *rand.Rand, tag string) (*PeerWorld, error) {
 		}
 	}
 	nl, np := count(), count()
+	manyMixed := r.Intn(8) == 0
+	if manyMixed {
+		nl = 13 + r.Intn(12) // 13..24 pending messages with mixed precedence
+	}
 	pl := &w.Plan
 	pl.Seed = r.Int63()
 	pl.Master = !w.LibMaster
@@ -182,6 +186,14 @@ func GenPeerWorld(r *rand.Rand, tag string) (*PeerWorld, error) {
 		m := GenMsg(r, GenMID(r, "L", i), w.LibCall, w.PeerCall)
 		if len(m.Body) > 12000 {
 			m.Body = m.Body[:12000]
+		}
+		if manyMixed {
+			if len(m.Body) > 900 {
+				m.Body = m.Body[:1+r.Intn(900)]
+			}
+			m.Files = nil
+			m.Subject = []string{"//WL2K Z/ ", "//WL2K O/ ", "//WL2K P/ ", "", "", ""}[r.Intn(6)] + fmt.Sprintf("mixed %d", i)
+			m.Shape = fmt.Sprintf("subject(%s) body[%d]", m.Subject, len(m.Body))
 		}
 		c, err := m.Canonical()
 		if err != nil {
